@@ -224,5 +224,202 @@ def renderArg (a : Bytes × List Bytes) : Bytes := a.1 ++ cEq :: joinB cSp a.2
 def render (v : Bytes) (as : List (Bytes × List Bytes)) : Bytes :=
   joinB cComma (v :: as.map renderArg)
 
+/-! ### consumers of arguments (seventh round): lookups through the public API, Property.Unmarshall
+
+  `Args().Find(name)` (arg.go:61-64) hands out the STORED item list of the formatted name — every item, empty ones
+  included; `Has` (arg.go:66-75) is presence / intersection with that list (`find`, `has` above).
+
+  Property.Unmarshall (component_definition/property.go:126-158) reads two arguments:
+    :136-138  `if args, ok := n.Args().Find("timeLayout"); ok { hooks = append(hooks, StringToTimeHookFunc(args[0])) }`
+    :141-143  `if args, ok := n.Args().Find("mapper"); ok { config.TagName = args[0] }`
+  `args[0]` on an empty item list is a Go panic (`first?` = none).  The parser never stores an empty list (a bare name
+  gets the one item ""), an edit through `SetArg(name)` can. -/
+
+def kMapper : Bytes := ofString "mapper"
+def kTimeLayout : Bytes := ofString "timeLayout"
+
+/-- `args[0]`; `none` = index out of range -/
+def first? : List Bytes → Option Bytes
+  | [] => none
+  | x :: _ => some x
+
+/-- what Unmarshall hands to mapstructure: the layout of the time hook (if the argument exists) and the TagName
+    (`yaml` from newDecodeConfig unless the `mapper` argument exists); `none` = panic -/
+def decodeOpts? (a : Args) : Option (Option Bytes × Bytes) :=
+  match find a kTimeLayout with
+  | some items =>
+    match first? items with
+    | none => none
+    | some l =>
+      match find a kMapper with
+      | some ms => (first? ms).map (fun m => (some l, m))
+      | none => some (some l, ofString "yaml")
+  | none =>
+    match find a kMapper with
+    | some ms => (first? ms).map (fun m => (none, m))
+    | none => some (none, ofString "yaml")
+
+/-! #### time.Parse for layouts over the chunks `2006 01 02 15 04 05` (Go 1.23 time/format.go: nextStdChunk :202-335,
+  parse :1044-1427, skip :975-995, getnum :912-925).  Modelled, not verified.  A layout with any other digit, or one
+  of the bytes J M P p Z _ (which may start another chunk), is outside the modelled language (`unmodelled`). -/
+
+inductive Chunk where
+  | lit (b : UInt8)
+  | year | month | day | hour | minute | second
+deriving Repr, DecidableEq
+
+def isDig (b : UInt8) : Bool := 48 ≤ b && b ≤ 57
+def dval (b : UInt8) : Nat := b.toNat - 48
+
+/-- bytes that never start a chunk of nextStdChunk when no digit other than the six chunks occurs in the layout:
+    everything except digits and J M P p Z _ (`-` needs `07`, `.` and `,` need a run of 0s or 9s ended by a non-digit) -/
+def safeLit (b : UInt8) : Bool :=
+  !(isDig b) && b != 74 && b != 77 && b != 80 && b != 112 && b != 90 && b != 95
+
+def chunkAt (s : Bytes) : Option (Chunk × Nat) :=
+  if (ofString "2006").isPrefixOf s then some (.year, 4)
+  else if (ofString "01").isPrefixOf s then some (.month, 2)
+  else if (ofString "02").isPrefixOf s then some (.day, 2)
+  else if (ofString "15").isPrefixOf s then some (.hour, 2)
+  else if (ofString "04").isPrefixOf s then some (.minute, 2)
+  else if (ofString "05").isPrefixOf s then some (.second, 2)
+  else none
+
+/-- the chunks of a layout in the modelled language (fuel = length + 1); `none` = outside it -/
+def layoutChunks : Nat → Bytes → Option (List Chunk)
+  | 0, _ => none
+  | _ + 1, [] => some []
+  | f + 1, b :: rest =>
+    if isDig b then
+      match chunkAt (b :: rest) with
+      | some (c, n) => (layoutChunks f ((b :: rest).drop n)).map (c :: ·)
+      | none => none
+    else if safeLit b then (layoutChunks f rest).map (.lit b :: ·)
+    else none
+
+/-- getnum(s, fixed): one or two digits (two when fixed) -/
+def getnum (fixed : Bool) : Bytes → Option (Nat × Bytes)
+  | [] => none
+  | [a] => if isDig a && !fixed then some (dval a, []) else none
+  | a :: b :: rest =>
+    if isDig a then
+      if isDig b then some (dval a * 10 + dval b, rest)
+      else if fixed then none else some (dval a, b :: rest)
+    else none
+
+structure TState where
+  year : Nat := 0
+  month : Option Nat := none
+  day : Option Nat := none
+  hour : Nat := 0
+  min : Nat := 0
+  sec : Nat := 0
+  nsec : Nat := 0
+deriving Repr, DecidableEq
+
+/-- parseNanoseconds on `.ddd…`: at most nine digits count, scaled to nanoseconds -/
+def fracNanos (digits : Bytes) : Nat :=
+  let ds := digits.take 9
+  (ds.foldl (fun n d => n * 10 + dval d) 0) * 10 ^ (9 - ds.length)
+
+/-- after a seconds chunk: a fractional second in the VALUE is taken even though the layout has none (:1162-1177;
+    the next chunk of a layout of the modelled language is never a fractional-second chunk) -/
+def takeFrac (v : Bytes) : Option (Nat × Bytes) :=
+  match v with
+  | c :: d :: rest =>
+    if (c = 46 ∨ c = 44) ∧ isDig d then
+      some (fracNanos ((d :: rest).takeWhile isDig), (d :: rest).dropWhile isDig)
+    else none
+  | _ => none
+
+/-- the loop of `parse` over the chunks; `sp` = the previous layout byte was a blank of the same literal run (skip
+    treats a run of blanks as one: the value may have any number of blanks there, also none at its end); `none` = error -/
+def parseLoop : List Chunk → Bool → Bytes → TState → Option TState
+  | [], _, v, st => if v.isEmpty then some st else none
+  | .lit b :: cs, sp, v, st =>
+    if b = 32 then
+      if sp then parseLoop cs true v st
+      else match v with
+        | [] => parseLoop cs true [] st
+        | x :: _ => if x = 32 then parseLoop cs true (v.dropWhile (· = 32)) st else none
+    else match v with
+      | x :: v' => if x = b then parseLoop cs false v' st else none
+      | [] => none
+  | .year :: cs, _, v, st =>
+    match v with
+    | a :: b :: c :: d :: v' =>
+      if isDig a && isDig b && isDig c && isDig d then
+        parseLoop cs false v' { st with year := ((dval a * 10 + dval b) * 10 + dval c) * 10 + dval d }
+      else none
+    | _ => none
+  | .month :: cs, _, v, st =>
+    match getnum true v with
+    | some (m, v') => if m = 0 ∨ 12 < m then none else parseLoop cs false v' { st with month := some m }
+    | none => none
+  | .day :: cs, _, v, st =>
+    match getnum true v with
+    | some (d, v') => parseLoop cs false v' { st with day := some d }
+    | none => none
+  | .hour :: cs, _, v, st =>
+    match getnum false v with
+    | some (h, v') => if 24 ≤ h then none else parseLoop cs false v' { st with hour := h }
+    | none => none
+  | .minute :: cs, _, v, st =>
+    match getnum true v with
+    | some (m, v') => if 60 ≤ m then none else parseLoop cs false v' { st with min := m }
+    | none => none
+  | .second :: cs, _, v, st =>
+    match getnum true v with
+    | some (s, v') =>
+      if 60 ≤ s then none
+      else
+        match takeFrac v' with
+        | some (ns, v'') => parseLoop cs false v'' { st with sec := s, nsec := ns }
+        | none => parseLoop cs false v' { st with sec := s }
+    | none => none
+
+def isLeap (y : Nat) : Bool := y % 4 == 0 && (y % 100 != 0 || y % 400 == 0)
+
+def daysIn (m y : Nat) : Nat :=
+  if m = 2 then (if isLeap y then 29 else 28)
+  else if m = 4 ∨ m = 6 ∨ m = 9 ∨ m = 11 then 30 else 31
+
+inductive TimeRes where
+  | ok (year month day hour min sec nsec : Nat)
+  | err
+  | unmodelled
+deriving Repr, DecidableEq
+
+/-- time.Parse(layout, value) for a layout of the modelled language: the civil time (UTC) or an error -/
+def timeParse (layout value : Bytes) : TimeRes :=
+  match layoutChunks (layout.length + 1) layout with
+  | none => .unmodelled
+  | some cs =>
+    match parseLoop cs false value {} with
+    | none => .err
+    | some st =>
+      let m := st.month.getD 1
+      let d := st.day.getD 1
+      if d < 1 ∨ d > daysIn m st.year then .err
+      else .ok st.year m d st.hour st.min st.sec st.nsec
+
+inductive BindRes where
+  | time (t : TimeRes)
+  | tagName (n : Bytes)
+  | err
+deriving Repr, DecidableEq
+
+/-- Unmarshall(text) into a `time.Time` field: without a layout mapstructure has a string for a struct (error), with
+    one the hook parses the text with the layout AS THE ARGUMENT'S FIRST ITEM IS WRITTEN; `none` = panic -/
+def bindTime? (a : Args) (value : Bytes) : Option BindRes :=
+  match decodeOpts? a with
+  | none => none
+  | some (none, _) => some .err
+  | some (some l, _) => some (.time (timeParse l value))
+
+/-- Unmarshall(map) into a struct: the TagName mapstructure matches the keys with; `none` = panic -/
+def bindTagName? (a : Args) : Option BindRes :=
+  (decodeOpts? a).map (fun o => .tagName o.2)
+
 end Tag
 end Ioc
